@@ -59,6 +59,7 @@ inductive V where
                                                -- what the methods of the SQL storage act on: the session (committed state, the
                                                -- session's view, dirty) and whether a pending row's key is already taken
   | smodel (u : Store.Uid) (p : Store.Pol) (ok : Bool)   -- a `PolicyModel` row object
+  | scursor (rows : Store.St)                  -- the rows a query yields
   | pager (ga : Int → Int → Option Store.St)   -- any storage, seen through its `get_all(limit, offset)` (`none`: it raises)
   | alog (audits : List AuditRec) (decisions : List Bool)
                                                -- what the guard writes: the audit records and the decision-log records
@@ -93,6 +94,7 @@ def truth : V → Bool
   | .pager _ => true
   | .sworld _ _ _ => true
   | .smodel _ _ _ => true
+  | .scursor _ => true
   | .mworld _ _ => true
   | .mdoc _ _ => true
   | .mcursor _ => true
@@ -280,6 +282,7 @@ def items : V → Option (List V)
   | .pols l => some (l.map fun (x : Store.Uid × Store.Pol) => V.polv x.1 x.2 true)
   | .rhash h => some (h.map fun (x : Store.Uid × Backends.Bytes) => V.py (.str x.1))      -- iterating a dict: its keys
   | .mcursor docs => some (docs.map fun (x : Store.Uid × Store.Pol) => V.mdoc x.1 x.2)
+  | .scursor rows => some (rows.map fun (x : Store.Uid × Store.Pol) => V.smodel x.1 x.2 true)
   | _ => Option.none
 
 /-- `for x in xs: BODY` followed by `REST`: the body of one iteration receives what comes after it (the next
@@ -979,6 +982,16 @@ def sessBulkDeleteM (key w : M) (k : V → M) : M :=
     | .py (.str u), .sworld s c Option.none => k (.sworld (stage (Store.erase u) s) c Option.none)
     | _, _ => raiseM
 
+/-- `self.session.query(PolicyModel).order_by(PolicyModel.uid.asc()).slice(start, stop)`: `LIMIT stop - start OFFSET start` over the
+session's view ordered by uid -/
+def sessSliceQueryM (start stop w : M) (k : V → V → M) : M :=
+  bindM start fun a => bindM stop fun b => bindM w fun w => match a, b, w with
+    | .py (.int a), .py (.int b), .sworld s c Option.none =>
+      if 0 ≤ a && 0 ≤ b then
+        k (.scursor (((Store.sortUid s.view).drop a.toNat).take (b.toNat - a.toNat))) (.sworld s c Option.none)
+      else raiseM
+    | _, _, _ => raiseM
+
 /-- `model.to_policy()` -/
 def toPolicyM (model : M) : M :=
   bindM model fun m => match m with | .smodel u p _ => .ok (.polv u p true) | _ => raiseM
@@ -986,7 +999,8 @@ def toPolicyM (model : M) : M :=
 /-- `raise PolicyExistsError(...)` / a bare `raise` in a handler of the SQL storage -/
 def raiseSqlM (exc : String) (w : M) : M :=
   bindM w fun w => match w with
-    | .sworld s c Option.none => .ok (.sworld s c (some (if exc == "PolicyExistsError" then .existsErr else .rejected)))
+    | .sworld s c Option.none =>
+      .ok (.sworld s c (some (if exc == "PolicyExistsError" then .existsErr else if exc == "ValueError" then .valueError else .rejected)))
     | _ => raiseM
 
 /-! ### `Policy.from_json`: the decoded properties as a local dictionary -/
